@@ -31,6 +31,9 @@ def plan(tier, ctx):
     for (n, ao) in fixed:
         qs.append(P.fixed_query("C06", n, ao, False, core=False, witness=(not quick and (n, ao) == (2, 3)),
                                 timeout=(600 if quick else 2400), mem_gb=(None if quick else 24)))
+    # (f) (lead) the "is this ISA-L's default header?" shortcut: yes exactly for a bit-exact copy
+    for ril in ([5, 13, 6] if quick else [5, 13, 61, 6, 0, 12]):
+        qs.append(P.pregen_query(ril, witness=(ril == 5)))
     # (e) (lead) engine C: the ASSEMBLY decoders decode_huffman_code_block_stateless_01/_04, lifted to C at check time
     #     (vlib/x86lift.py), under the same oracle.  Measured (loaded machine): n=1, ao=3: 317 s, 5.9 M variables, 6 GB.
     asm = [("04", 1, 0, 3)] if quick else [(v, 1, 0, ao) for v in ("04", "01") for ao in (0, 3, 8)]
